@@ -622,6 +622,12 @@ func (g *Gen) heapStable() bool {
 	if g.FC == nil {
 		return true
 	}
+	if g.FC.Opts["assume-heappure-stable"] != "" {
+		// explicit, listed assumption: this function does not modify any cell that the heap-reading pure functions
+		// it mentions read (e.g. it rearranges statement lists while they only read expression nodes)
+		g.Assumptions["assume-heappure-stable: "+g.FC.Name+" is assumed not to modify cells read by the heap-reading pure functions it uses in its contract ("+g.FC.Opts["assume-heappure-stable"]+")"] = true
+		return true
+	}
 	if !g.FC.HasMods {
 		return false
 	}
